@@ -944,6 +944,13 @@ impl SctpTransport {
     }
 
     pub async fn send_dcep_open(&self, dc: &DataChannel) -> Result<()> {
+        // Nothing may be sent on an association that is not established yet.
+        // A channel created while the SCTP handshake is still in flight stays
+        // Connecting; the handshake completion (COOKIE-ECHO / COOKIE-ACK
+        // handling) sends the OPEN of every such channel.
+        if *self.inner.state.lock() != SctpState::Connected {
+            return Ok(());
+        }
         self.inner.send_dcep_open(dc).await
     }
 
